@@ -142,10 +142,10 @@ func (c *pipelineConn) write(m []byte, qid uint16) (err error) {
 	isTCP := c.t.opts.IsTCP
 	if isTCP {
 		b, err := copyMsgWithLenHdr(m)
-		setQid(b, 2, qid)
 		if err != nil {
 			return err
 		}
+		setQid(b, 2, qid)
 		_, err = c.c.Write(b)
 		pool.ReleaseBuf(b)
 		return err
